@@ -6,6 +6,7 @@ import (
 	"context"
 	"errors"
 	"fmt"
+	"runtime/debug"
 	"sync"
 	"sync/atomic"
 	"time"
@@ -46,6 +47,19 @@ type sequencer struct {
 	latest  atomic.Int64
 	byNum   atomic.Int64
 	classes atomic.Int64
+	errPct  int // injected endpoint failures (poller error / retry paths: failed tick, backfill aborted half way)
+	failed  atomic.Int64
+}
+
+var errSequencer = errors.New("scripted sequencer: injected failure")
+
+// fail draws an injected failure; the caller holds s.mu.
+func (s *sequencer) fail() bool {
+	if s.errPct > 0 && s.r.Chance(s.errPct, 100) {
+		s.failed.Add(1)
+		return true
+	}
+	return false
 }
 
 func (s *sequencer) newBlock(num uint64) {
@@ -121,6 +135,9 @@ func (s *sequencer) PreConfirmedBlockLatest(_ context.Context, ident string, txC
 	s.latest.Add(1)
 	s.mu.Lock()
 	defer s.mu.Unlock()
+	if s.fail() {
+		return nil, 0, errSequencer
+	}
 	u, err := s.respond(s.hi, ident, txCount)
 	return u, s.hi, err
 }
@@ -129,11 +146,20 @@ func (s *sequencer) PreConfirmedBlockByNumber(_ context.Context, n uint64, ident
 	s.byNum.Add(1)
 	s.mu.Lock()
 	defer s.mu.Unlock()
+	if s.fail() {
+		return nil, errSequencer
+	}
 	return s.respond(n, ident, txCount)
 }
 
 func (s *sequencer) Class(_ context.Context, h *felt.Felt) (core.ClassDefinition, error) {
 	s.classes.Add(1)
+	s.mu.Lock()
+	failed := s.fail()
+	s.mu.Unlock()
+	if failed {
+		return nil, errSequencer
+	}
 	return classDef(3000 + h.Uint64()), nil
 }
 
@@ -163,7 +189,7 @@ func (h *harness) pollerRound(rng *lib.RNG, round int) {
 		return 0
 	}
 	head := setHighest()
-	sim := &sequencer{r: rng.Fork(7), blocks: map[uint64]*simBlock{}}
+	sim := &sequencer{r: rng.Fork(7), blocks: map[uint64]*simBlock{}, errPct: 10}
 	sim.realign(head, false)
 	out := feed.New[*pending.PreConfirmed]()
 	sub := out.Subscribe()
@@ -172,8 +198,6 @@ func (h *harness) pollerRound(rng *lib.RNG, round int) {
 	ctx, cancel := context.WithCancel(context.Background())
 	var wg sync.WaitGroup
 	wg.Add(1)
-	go func() { defer wg.Done(); poller.Run(ctx) }()
-
 	var mu sync.Mutex
 	var found []cFinding
 	violate := func(sig, what string) {
@@ -181,6 +205,13 @@ func (h *harness) pollerRound(rng *lib.RNG, round int) {
 		found = append(found, cFinding{sig, what})
 		mu.Unlock()
 	}
+	go func() {
+		defer wg.Done()
+		if err, panicked, stack := lib.Try(func() error { poller.Run(ctx); return nil }); panicked {
+			violate("poller-run-panics", fmt.Sprintf("preconfirmed.Poller.Run panicked: %v\n%s", err, clip(stack)))
+		}
+	}()
+
 	var stop atomic.Bool
 	var views, nonEmpty, maxLen, published atomic.Int64
 	// feed consumer: what the poller publishes must be entries with a header
@@ -204,6 +235,11 @@ func (h *harness) pollerRound(rng *lib.RNG, round int) {
 		rr := rng.Fork(uint64(200 + w))
 		go func() {
 			defer wg.Done()
+			defer func() {
+				if p := recover(); p != nil {
+					violate("poller-reader-panics", fmt.Sprintf("a reader using a view panicked: %v\n%s", p, clip(string(debug.Stack()))))
+				}
+			}()
 			type held struct {
 				v    preconfirmed.ChainReader
 				hash string
@@ -303,6 +339,7 @@ func (h *harness) pollerRound(rng *lib.RNG, round int) {
 	h.res.HitN("poller-latest-polls", int(sim.latest.Load()))
 	h.res.HitN("poller-bynumber-polls", int(sim.byNum.Load()))
 	h.res.HitN("poller-class-fetches", int(sim.classes.Load()))
+	h.res.HitN("poller-injected-endpoint-failures", int(sim.failed.Load()))
 	h.res.HitN("poller-published-entries", int(published.Load()))
 	h.res.HitN("poller-head-moves", moves)
 	h.res.HitN("poller-reader-views", int(views.Load()))
